@@ -7,6 +7,7 @@ import (
 
 	"github.com/ThreeDotsLabs/watermill"
 	"github.com/ThreeDotsLabs/watermill/message"
+	"github.com/ThreeDotsLabs/watermill/verifhook"
 	"github.com/hashicorp/go-multierror"
 	"github.com/pkg/errors"
 )
@@ -178,6 +179,7 @@ func (p PubSubBackend[Result]) ListenForNotifications(
 		// sendReply must not block forever when the caller has stopped reading:
 		// it gives up as soon as the listening context is done.
 		sendReply := func(reply Reply[Result]) {
+			verifhook.At("requestreply.listen.before_send", string(params.OperationID))
 			select {
 			case replyChan <- reply:
 			case <-ctx.Done():
